@@ -378,6 +378,37 @@ func runC09(c *eng.Ctx) {
 				}
 			}
 			okRb = okRb && okStore
+			// ... and on every path on which more segments exist: nothing else (compaction ran or not) may decide it
+			q := &eng.PathQuery{Fn: fn, FromEdges: more, Target: func(x ssa.Instruction) bool {
+				st, isSt := x.(*ssa.Store)
+				if !isSt {
+					return false
+				}
+				fa, isFA := st.Addr.(*ssa.FieldAddr)
+				return isFA && fieldIs(fa, segF)
+			}, CutInstr: func(x ssa.Instruction) bool { return x == rb[0].(ssa.Instruction) }}
+			if w := q.Find(); w != nil {
+				okRb = false
+			}
+			// the comparison is made on every path to the swap (it is not skipped when, say, no compaction ran)
+			notMore := eng.CmpEdges(fn, eng.Len(eng.Load(segF, nil)), eng.Len(eng.Load(segF, nil)), eng.LE)
+			for _, st := range eng.FieldStores(fn, func(fa *ssa.FieldAddr) bool { return fieldIs(fa, segF) }) {
+				if g, _ := eng.GuardedBy(fn, st, append(append([]eng.Edge{}, more...), notMore...)); !g {
+					okRb = false
+				}
+			}
+		}
+		// rebaseSegments itself appends the new segments to the cleaned ones
+		if rf := c.FnQuiet(cl + "(*commitLog).rebaseSegments"); rf != nil {
+			okApp := false
+			for _, r := range eng.Returns(rf) {
+				if ac := eng.AsCall(eng.RetVals(r)[0]); ac != nil {
+					if b, isB := ac.Call.Value.(*ssa.Builtin); isB && b.Name() == "append" && eng.Param("to")(ac.Call.Args[0]) && eng.Param("from")(ac.Call.Args[1]) {
+						okApp = true
+					}
+				}
+			}
+			okRb = okRb && okApp
 		}
 		c.Check(okRb, "segments rolled during a clean survive the swap", pos, "l.segments = rebaseSegments(new[len(old):], cleaned) exactly when len(new) > len(old)", "commitLog.Clean swaps in the cleaned list without re-attaching (exactly) the segments that were rolled while the cleaner ran: a segment appended during a clean is lost or duplicated")
 	}
